@@ -49,6 +49,9 @@ func genC07Tasks(r *Rng, g *Gen, w *World, nt int) {
 	for t := 0; t < nt; t++ {
 		var script []Step
 		nc := r.Range(1, 4)
+		if w.Extra["deep"] == "1" {
+			nc = r.Range(1, 7)
+		}
 		for c := 0; c < nc; c++ {
 			kind := c07calls[r.Intn(len(c07calls))]
 			s := Step{Op: kind, Expr: r.Intn(len(w.Exprs))}
@@ -99,6 +102,9 @@ func (propC07) Gen(r *Rng, tier string) *World {
 	k.RawConsts = r.P(0.3)
 	g := NewGen(r, k)
 	w := &World{Prop: "C07", Extra: map[string]string{}}
+	if tier == "thorough" {
+		w.Extra["deep"] = "1"
+	}
 	if r.P(0.4) {
 		g.C.Ops = append(g.C.Ops, OpSpec{Name: "subeval", Kind: "sub", Ret: TInt, Arity: 0})
 		g.ob[TInt] = append(g.ob[TInt], len(g.C.Ops)-1)
@@ -123,7 +129,11 @@ func (propC07) Gen(r *Rng, tier string) *World {
 		}
 	} else {
 		w.Extra["engine"] = "bubble"
-		genC07Tasks(r, g, w, r.Range(2, 4))
+		nt := r.Range(2, 4)
+		if tier == "thorough" {
+			nt = r.Range(2, 6)
+		}
+		genC07Tasks(r, g, w, nt)
 		w.ChCap = []int{0, 1, 2, 8, -1, -1}[r.Intn(6)]
 	}
 	w.Extra["sched_seed"] = strconv.FormatUint(r.U64(), 10)
